@@ -45,7 +45,11 @@ def gen_default(rng):
     return "0", 0
 
 
-def gen_column(rng, name, allow_pk=True, allow_ref=True):
+REF_COLS = [None, "id", "k"]
+REF_COLS_KW = [None, "id", "k", "key", "comment", "order", "default", "type", "start", "data"]
+
+
+def gen_column(rng, name, allow_pk=True, allow_ref=True, kw_refs=False):
     col = {"name": name, "opts": []}
     k = rng.randrange(10)
     if k < 5:
@@ -81,7 +85,7 @@ def gen_column(rng, name, allow_pk=True, allow_ref=True):
             col["opts"].append(("pk",))
         elif kd == "ref":
             ref = {"schema": rng.choice([None, None, "o"]), "table": rng.choice(["p", "parents", "Q"]),
-                   "column": rng.choice([None, "id", "k"]), "on_delete": None, "on_update": None}
+                   "column": rng.choice(REF_COLS_KW if kw_refs else REF_COLS), "on_delete": None, "on_update": None}
             if rng.random() < 0.4:
                 ref["on_delete"] = rng.choice(ACTIONS)
             if rng.random() < 0.3:
@@ -90,14 +94,14 @@ def gen_column(rng, name, allow_pk=True, allow_ref=True):
     return col
 
 
-def gen_table(rng, ncols=None, constraints=True, kw_names=False, name=None, schema="?"):
+def gen_table(rng, ncols=None, constraints=True, kw_names=False, name=None, schema="?", kw_refs=False):
     n = ncols or rng.choice([1, 2, 3, 3, 4, 5, 6, 8])
     pool = NAMES + (KW_NAMES if kw_names else [])
     names = pick_names(rng, n, pool)
     pk_mech = rng.choice(["none", "inline", "clause", "named"]) if constraints else rng.choice(["none", "inline"])
     t = {"name": name or rng.choice(TABLE_NAMES), "schema": rng.choice(SCHEMAS) if schema == "?" else schema, "cols": [], "items": []}
     for nm in names:
-        t["cols"].append(gen_column(rng, nm, allow_pk=(pk_mech == "inline")))
+        t["cols"].append(gen_column(rng, nm, allow_pk=(pk_mech == "inline"), kw_refs=kw_refs))
     if pk_mech == "inline" and not any(o[0] == "pk" for c in t["cols"] for o in c["opts"]):
         t["cols"][rng.randrange(n)]["opts"].append(("pk",))
     if not constraints:
